@@ -305,7 +305,10 @@ def make_module(cfg):
             symx.prove("state-dict tensor aliases/equals the module tensor", len(hits) >= 1, info)
         ids_before = [id(t) for t in dst_t]
         arrs_before = [t.a for t in dst_t]
-        dst.load_state_dict(sd)
+        try:
+            dst.load_state_dict(sd)
+        except Exception as e:
+            symx.prove(f"a module loads the state dict of a structurally equal module ({type(e).__name__}: {str(e)[:80]})", False, info)
         # tensor objects stay, contents are the loaded ones
         after = []
 
@@ -520,8 +523,11 @@ def replay(record):
         dst, dt = top(100.0)
         sd = src.state_dict()
         ids = [id(t) for t in dt]
-        dst.load_state_dict(sd)
         probs = []
+        try:
+            dst.load_state_dict(sd)
+        except Exception as e:
+            probs.append(f"loading the state dict of a structurally equal module raises {type(e).__name__}: {e}")
         cnt = [0]
 
         def walk(x):
